@@ -146,6 +146,36 @@ def sweep_case(args):
     return r
 
 
+def reach_program(rnd):
+    """a backward (or forward) branch / jump whose distance sits on the edge of the COMPRESSED form's reach
+    (c.beqz / c.bnez +-256, c.j / c.jal +-2 KiB) with a run of compressible instructions around the label, so that the
+    distance the compression pass sees keeps changing while it walks: every decision must be taken on current values"""
+    L = progs.Ln
+    nop = lambda: L('    addi x0 x0 0', 'instr', 'addi', [('r', 0), ('r', 0), ('i', 0)])           # compressible (c.nop)
+    wide = lambda: L('    lui x5, 0x12345', 'instr', 'lui', [('r', 5), ('i', 0x12345)])              # stays 4 bytes
+    kind = rnd.choice(['bnez', 'beqz', 'beq0', 'j', 'jal1'])
+    reach = 256 if kind in ('bnez', 'beqz', 'beq0') else 2048
+    k = rnd.randrange(1, 40)                       # compressible instructions between label and transfer
+    extra = rnd.randrange(0, 2 * k + 6)            # bytes past the reach as seen before those instructions shrink
+    total = reach - 4 + extra                      # distance in the finished -c layout (all k nops at 2 bytes)
+    nwide = max(0, (total - 2 * k) // 4)
+    r = 8 + rnd.randrange(8)
+    if kind == 'j':
+        t = L('    j T', 'pjump', 'j', [], 'T')
+    elif kind == 'jal1':
+        t = L('    jal x1, T', 'jal', 'jal', [1], 'T')
+    elif kind == 'beq0':
+        t = L('    beq x%d, x0, T' % r, 'branch', 'beq', [r, 0], 'T')
+    else:
+        t = L('    %s x%d, T' % (kind, r), 'pbranch1', kind, [r], 'T')
+    pre = [nop() for _ in range(rnd.randrange(0, 12))]          # shrinking code in front of everything
+    mid = [nop() for _ in range(k)] + [wide() for _ in range(nwide)]
+    rnd.shuffle(mid)
+    if rnd.random() < 0.7:
+        return pre + [L('T:', 'label', 'T')] + mid + [t, nop()]
+    return pre + [t] + mid + [L('T:', 'label', 'T'), nop()]
+
+
 def one_case(args):
     seedv, idx, tier = args
     os.environ['VERIF_SEED'] = str(seedv)
@@ -154,6 +184,8 @@ def one_case(args):
     if idx % 10 == 9:
         from harness import layout_check
         lines = layout_check.far_program(rnd)
+    elif idx % 10 == 4:
+        lines = reach_program(rnd)
     else:
         lines = progs.gen_program(rnd, size=rnd.randrange(6, 28), fillers=(idx % 3 == 0))
     return evaluate(asm, lines, idx)
